@@ -63,7 +63,17 @@ fn natural_end(t: &TypeS, lay: &Layout) -> u64 {
     }
 }
 
-fn apply(t: &TypeS, lay: &Layout, chosen: &[&Site]) -> TypeS {
+fn apply(t: &TypeS, lay: &Layout, chosen: &[&Site], gap_style: usize) -> TypeS {
+    // how an inserted `_` gap field is written: plain, `pub`, or with a doc comment
+    let mk_gap = |n: u64| {
+        let mut g = FieldS::gap(n);
+        match gap_style {
+            1 => g.public = true,
+            2 => g.doc = vec![" reserved".to_string()],
+            _ => {}
+        }
+        g
+    };
     let mut out = t.clone();
     let mut drop: Vec<usize> = vec![];
     let mut insert_before: Vec<(usize, u64)> = vec![];
@@ -96,14 +106,14 @@ fn apply(t: &TypeS, lay: &Layout, chosen: &[&Site]) -> TypeS {
     let mut fields = vec![];
     for (i, f) in out.fields.iter().enumerate() {
         if let Some((_, gap)) = insert_before.iter().find(|(k, _)| *k == i) {
-            fields.push(FieldS::gap(*gap));
+            fields.push(mk_gap(*gap));
         }
         if !drop.contains(&i) {
             fields.push(f.clone());
         }
     }
     if let Some((_, gap)) = insert_before.iter().find(|(k, _)| *k == t.fields.len()) {
-        fields.push(FieldS::gap(*gap));
+        fields.push(mk_gap(*gap));
     }
     out.fields = fields;
     out
@@ -139,7 +149,7 @@ fn out_of(input: &pipe::Input, ps: usize) -> Result<String, String> {
 }
 
 fn print_styled(mods: &[ModuleS], style: NumStyle) -> pipe::Input {
-    pipe::Input { modules: mods.iter().map(|m| (m.path.clone(), Printer { style }.module(m))).collect() }
+    pipe::Input { modules: mods.iter().map(|m| (m.path.clone(), Printer { style, reverse_type_attrs: false, docs_after_attrs: false }.module(m))).collect() }
 }
 
 pub fn run(tier: &str, only: Option<&Value>) -> i32 {
@@ -177,19 +187,25 @@ pub fn run(tier: &str, only: Option<&Value>) -> i32 {
                     if !compatible(&chosen, case.ty.fields.len()) {
                         continue;
                     }
-                    let t2 = apply(&case.ty, &lay, &chosen);
-                    let input2 = to_input(&space.modules_for(&t2));
-                    n += 1;
-                    match out_of(&input2, ps) {
-                        Ok(o) if o == base => {}
-                        Ok(o) => {
-                            viol = Some(("rewrite_changes_output".to_string(), format!("sites {chosen:?}\n--- original ---\n{}\n{base}\n--- rewritten ---\n{}\n{o}", to_input(&mods).render(), input2.render()), input2));
-                            break;
+                    let inserts_gap = chosen.iter().any(|s| matches!(s, Site::AddrToGap(_) | Site::SizeToGap));
+                    for gap_style in 0..(if inserts_gap { 3 } else { 1 }) {
+                        let t2 = apply(&case.ty, &lay, &chosen, gap_style);
+                        let input2 = to_input(&space.modules_for(&t2));
+                        n += 1;
+                        match out_of(&input2, ps) {
+                            Ok(o) if o == base => {}
+                            Ok(o) => {
+                                viol = Some(("rewrite_changes_output".to_string(), format!("sites {chosen:?}\n--- original ---\n{}\n{base}\n--- rewritten ---\n{}\n{o}", to_input(&mods).render(), input2.render()), input2));
+                                break;
+                            }
+                            Err(e) => {
+                                viol = Some(("rewrite_rejected".to_string(), format!("sites {chosen:?}\n--- original (accepted) ---\n{}\n--- rewritten ---\n{}\n{e}", to_input(&mods).render(), input2.render()), input2));
+                                break;
+                            }
                         }
-                        Err(e) => {
-                            viol = Some(("rewrite_rejected".to_string(), format!("sites {chosen:?}\n--- original (accepted) ---\n{}\n--- rewritten ---\n{}\n{e}", to_input(&mods).render(), input2.render()), input2));
-                            break;
-                        }
+                    }
+                    if viol.is_some() {
+                        break;
                     }
                 }
                 // R6 spellings
@@ -346,6 +362,30 @@ fn other_cases(tier: &str) -> Vec<(&'static str, Vec<ModuleS>, Vec<Vec<ModuleS>>
                     let mut e2 = e.clone();
                     for (b, &i) in implicit.iter().enumerate() {
                         if mask >> b & 1 == 1 {
+                            e2.variants[i].value = Some(vals[i]);
+                        }
+                    }
+                    variants.push(vec![ModuleS::new("m").with(vec![Item::Enum(e2)])]);
+                }
+                out.push(("enum", vec![ModuleS::new("m").with(vec![Item::Enum(e)])], variants));
+            }
+        }
+    }
+    // R5 at the boundary of the base type: an explicit value followed by implicit ones that end
+    // at, or one past, the maximum (the latter originals are rejected and drop out)
+    for (base_ty, max) in [("u8", 255i128), ("i8", 127), ("u16", 65535), ("i32", 2147483647)] {
+        for start_off in 0..4i128 {
+            for nv in 2..=4usize {
+                let mut e = EnumS::new("E", base_ty);
+                for i in 0..nv {
+                    e.variants.push(VariantS { name: format!("V{i}"), value: if i == 0 { Some(max - start_off) } else { None }, default: false, doc: vec![] });
+                }
+                let vals = enum_values(&e);
+                let mut variants = vec![];
+                for mask in 1u32..(1 << (nv - 1)) {
+                    let mut e2 = e.clone();
+                    for i in 1..nv {
+                        if mask >> (i - 1) & 1 == 1 {
                             e2.variants[i].value = Some(vals[i]);
                         }
                     }
